@@ -297,6 +297,7 @@ func verif_C04_segmentation() {
 	}
 	k := verifChoice(len(convs))
 	in := []byte(convs[k])
+	withEOF := nondetBool() // the segmented run's last octets arrive together with EOF
 	type obs struct {
 		out    []byte
 		kinds  []string
@@ -326,7 +327,7 @@ func verif_C04_segmentation() {
 			// chunks (one accepted, one refused) whose LF-free runs are longer than a line may be
 			s.MaxLineLength = 24
 		}
-		vc := &vconn{in: in, final: io.EOF, seg: seg, cuts: cuts}
+		vc := &vconn{in: in, final: io.EOF, seg: seg, cuts: cuts, finalWithData: withEOF && (seg > 0 || cuts != nil)}
 		c := newConn(vc, s)
 		s.handleConn(c)
 		verifSettle()
